@@ -50,6 +50,21 @@ def run(ctx):
     ccnew = a.call_blocks(lambda t: call_matches(t, r"client::ClientConnection::new$"))
     ctx.ob("C08.3", "accept-thread|shape", "the accept thread accepts connections, wraps each in a ClientConnection and hands it to the pool", len(accepts) == 1 and bool(spawns) and bool(ccnew), "%s:%d" % (a.file, a.line),
            "accept=%d dispatch=%d ClientConnection::new=%d" % (len(accepts), len(spawns), len(ccnew)))
+    # the accept thread serves every client: apart from `accept()` itself it does nothing that waits for one of them (reading from an
+    # accepted socket, waiting for a turn or for a message): a client that connects and stays silent must not keep the others from
+    # being accepted
+    WAITS = {"BLOCK-IO", "CHAN-RECV", "CV-WAIT", "CV-WAIT-T", "WAIT-TURN-R", "WAIT-TURN-W"}
+    badw = []
+    nw = 0
+    for bb, t in a.calls():
+        if bb in accepts:
+            continue
+        nw += 1
+        w_ = facts.effects_at(a, bb) & WAITS
+        if w_:
+            badw.append("%s: %s at %s" % (short(call_name(t)), sorted(w_), a.loc(bb)))
+    ctx.ob("C08.3", "accept-thread|waits-for-no-client", "between two `accept()` calls the accept thread does nothing that can wait for a client (no read from an accepted socket, no wait for a turn, a message or a condition)",
+           nw > 0 and not badw, "%s:%d" % (a.file, a.line), None if not badw else str(badw[:3]))
     if len(accepts) == 1 and spawns and ccnew:
         # path-wise (the wrapping and the dispatch may sit in different helpers, with the connection travelling through Option / Result
         # in between): on every abstract path, a connection that was wrapped is handed to the pool before the thread accepts again or ends
